@@ -19,6 +19,7 @@ lost), a class hierarchy where one leaf prints a constant and a sibling leaf pri
 Anything else is UNDECIDED.
 """
 import ast
+import re
 
 from ..astutil import u, walk_no_nested
 
@@ -154,6 +155,10 @@ class Encoder:
                 auto = 0
                 prev_field = False
                 for lit, field, spec, conv in items:
+                    if lit and prev_field and field is not None and re.fullmatch(r'\w+', lit):
+                        # the literal between two variable parts consists of characters that names are made of (states,
+                        # variables and symbols of the text formats are \w+): q_1 + '_' + 2 and q + '_' + 1_2 collide
+                        return Enc(NOT, reason="the separator {!r} between two fields of {!r} consists of characters that occur in names themselves (names are \\w+): different pairs of names can give the same text".format(lit, fn.value.value))
                     if lit:
                         prev_field = False
                     if field is None:
@@ -422,7 +427,7 @@ def naming_functions(ctx, funcs):
             if not params:
                 continue
             for s in walk_no_nested(g.node):
-                if isinstance(s, ast.Return) and isinstance(s.value, ast.Call) and isinstance(s.value.func, ast.Name) and s.value.func.id == 'State' and len(s.value.args) == 1:
+                if isinstance(s, ast.Return) and isinstance(s.value, ast.Call) and isinstance(s.value.func, ast.Name) and s.value.func.id in ('State', 'Variable') and len(s.value.args) == 1:
                     a = s.value.args[0]
                     if isinstance(a, (ast.Call, ast.JoinedStr, ast.BinOp)):
                         out.append((g, s.value))
